@@ -155,3 +155,50 @@ def deformBsf (Ds : List PauliMap) (v : List Nat) : List Nat :=
   pauliToBsf ps
 
 end Panqec
+
+namespace Panqec
+
+/-! ### The two assembly loops as the code writes them (folds with `+= 1`) -/
+
+/-- `qubit_index[loc]`: position of the coordinate (`none` = KeyError). With distinct
+    coordinates this is the index in `qubit_coordinates`. -/
+def qubitIndex? (qs : List Coord) (q : Coord) : Option Nat :=
+  let i := qs.idxOf q
+  if i < qs.length then some i else none
+
+def bump (v : List Nat) (i : Nat) : List Nat := v.modify i (· + 1)
+
+/-- `to_bsf` as a loop over the dict entries: `bsf[idx] += 1` for X/Y, `bsf[n+idx] += 1` for Y/Z -/
+def toBsfFold (qs : List Coord) (op : Op) : Option (List Nat) :=
+  op.foldlM (init := List.replicate (2 * qs.length) 0) fun v (e : Coord × Pauli) =>
+    match qubitIndex? qs e.1 with
+    | none => none
+    | some i =>
+      let v := if e.2.xBit == 1 then bump v i else v
+      let v := if e.2.zBit == 1 then bump v (qs.length + i) else v
+      some v
+
+/-- one row of `stabilizer_matrix`: the `sparse_dict` accumulation (`+= 1` or insert 1),
+    written into a zero row, then `data %= 2`. -/
+def sparseBump (d : List (Nat × Nat)) (key : Nat) : List (Nat × Nat) :=
+  if d.any (·.1 == key) then d.map fun (k, c) => if k == key then (k, c + 1) else (k, c)
+  else d ++ [(key, 1)]
+
+def stabRowFold (qs : List Coord) (op : Op) : Option (List Nat) :=
+  let acc := op.foldlM (init := ([] : List (Nat × Nat))) fun d (e : Coord × Pauli) =>
+    match qubitIndex? qs e.1 with
+    | none => none
+    | some i =>
+      let d := if e.2.xBit == 1 then sparseBump d i else d
+      let d := if e.2.zBit == 1 then sparseBump d (qs.length + i) else d
+      some d
+  acc.map fun d =>
+    (List.range (2 * qs.length)).map fun col =>
+      match d.find? (·.1 == col) with
+      | some (_, c) => c % 2
+      | none => 0
+
+def stabilizerMatrixFold (c : CodeData) : Option (List (List Nat)) :=
+  c.stabOps.mapM (stabRowFold c.qubits)
+
+end Panqec
